@@ -70,6 +70,10 @@ class Emission:
         self.param_roles = param_roles if param_roles is not None else {1: ()}
         self.depth = depth
         self.subs = []
+        self.elem_subst = {}       # loop iterator place -> value term its element stands for (composite iterators: chain / flat_map / once / Option)
+        self.composite_ok = set()  # loop iterators whose element sequence was turned into a regular expression
+        self.composite_rx = {}     # loop head -> that regular expression
+        self._probe = 0
         others = [n for n, b in prog.bodies.items() if n != fn and b.get('impl') and b['impl']['trait_def'].endswith('fmt::Display') and n.endswith('::fmt')
                   and (n.startswith('unic_langid_impl::') or n.startswith('unic_locale_impl::'))]
         self.opaque = set(others)
@@ -119,6 +123,8 @@ class Emission:
         if k == 'pos':
             b = self.role_of(st, v[1], depth + 1)
             return None if b is None else b + (('some',),)
+        if k == 'T' and v[1] in self.elem_subst:
+            return self.role_of(st, self.elem_subst[v[1]], depth + 1)
         if k == 'T':       # element obtained from an iterator: ('T', iterator place, element id)
             src = self.iter_source(st, v[1])
             return None if src is None else src + (('elem',),)
@@ -169,6 +175,132 @@ class Emission:
                 continue
             break
         return self.role_of(st, v)
+
+    # ---- composite iterators: the sequence of elements as a regular expression over value terms
+    def iter_value(self, st, itplace):
+        """the value an iterator local was created with (following whole-local moves)"""
+        # the definition on THIS path (a composite iterator built from Option values differs from path to path)
+        cands = [itplace]
+        seen = set()
+        pl = itplace
+        while pl[0] == 'L' and pl[2] in self.alias and pl[2] not in seen:
+            seen.add(pl[2])
+            pl = ('L', pl[1], self.alias[pl[2]])
+            cands.append(pl)
+        for ev in reversed(getattr(st, 'events', []) or []):
+            if ev[0] == 'def' and ev[1] in cands:
+                return ev[2]
+        for c in cands:
+            if c in self.iter_src:
+                return self.iter_src[c]
+        return None
+
+    def is_composite(self, v, depth=0):
+        if v is None or depth > 8:
+            return False
+        while v[0] in ('mut', 'cref') or (v[0] == 'ref' and isinstance(v[1], tuple) and v[1] and v[1][0] not in ('L', 'F', 'P', 'T', 'ST', 'STR', 'MEM')):
+            v = v[1]
+        if v[0] == 'pure':
+            last = v[1].split('::')[-1]
+            if last in ('chain', 'flat_map', 'once'):
+                return True
+            if last in ('map', 'copied', 'cloned', 'by_ref', 'fuse', 'peekable', 'into_iter') and v[2]:
+                return self.is_composite(v[2][0], depth + 1)
+        if v[0] == 'adt' and v[2] in ('Some', 'None') and 'option::Option' in v[1]:
+            return True
+        return False
+
+    def iter_items(self, st, v, depth=0):
+        """AST ('seq', [..]) | ('star', x) | ('opt', x) | ('val', term) for the elements an iterator value yields, in order; None when not understood"""
+        if v is None or depth > 10:
+            return None
+        for _ in range(6):
+            if v[0] in ('mut', 'cref'):
+                v = v[1]
+            elif v[0] == 'ref' and v[1][0] == 'L':
+                try:
+                    v = self.e.deref_value(st, v)
+                except Exception:
+                    return None
+            else:
+                break
+        k = v[0]
+        if k == 'adt' and 'option::Option' in v[1]:
+            return ('seq', []) if v[2] == 'None' else ('val', v[3][0])
+        if k == 'sliceiter' and (v[1][0] == 'CONST' or (v[1][0] == 'P' and v[1][1][0] == 'ref' and v[1][1][1][0] in ('MEM', 'STR') and not v[1][1][1][1])
+                                 or (v[1][0] == 'P' and v[1][1][0] == 'cref' and v[1][1][1][0] == 'array' and not v[1][1][1][1])):
+            return ('seq', [])            # iteration over a constant empty slice (`&[]` for an absent list)
+        if k == 'sliceiter' or (k == 'pure' and v[1].split('::')[-1] in ('iter', 'keys', 'values') and v[2]) or \
+                (k == 'pure' and v[1].split('::')[-1] == 'into_iter' and v[2] and not self.is_composite(v[2][0])):
+            self._probe += 1
+            key = ('ITP', self._probe)
+            self.iter_src[key] = v
+            if self.iter_source(st, key) is None:
+                return None
+            return ('star', ('val', ('ref', ('T', key, ('e', 'x', 0)))))
+        if k != 'pure' or not v[2]:
+            return None
+        last = v[1].split('::')[-1]
+        if last == 'once' and len(v[2]) == 1:
+            return ('val', v[2][0])
+        if last == 'chain' and len(v[2]) == 2:
+            a, b = self.iter_items(st, v[2][0], depth + 1), self.iter_items(st, v[2][1], depth + 1)
+            return None if a is None or b is None else ('seq', [a, b])
+        if last in ('copied', 'cloned', 'by_ref', 'fuse', 'peekable', 'into_iter'):
+            return self.iter_items(st, v[2][0], depth + 1)
+        if last in ('map', 'flat_map') and len(v[2]) == 2:
+            base = self.iter_items(st, v[2][0], depth + 1)
+            if base is None:
+                return None
+            clos = v[2][1]
+
+            def sub(ast):
+                if ast[0] == 'val':
+                    try:
+                        outs = self.e.call_closure(st.copy(), clos, [ast[1]])
+                    except Exception:
+                        return None
+                    if len(outs) != 1 or outs[0][1] == ('PANIC',):
+                        return None
+                    if last == 'map':
+                        return ('val', outs[0][1])
+                    return self.iter_items(outs[0][0], outs[0][1], depth + 1)
+                if ast[0] == 'seq':
+                    xs = [sub(x) for x in ast[1]]
+                    return None if any(x is None for x in xs) else ('seq', xs)
+                inner = sub(ast[1])
+                return None if inner is None else (ast[0], inner)
+            return sub(base)
+        return None
+
+    def items_regex(self, ast, leaf_fn):
+        """emission regular expression (AST of regex_nfa) of a loop over a composite iterator: every leaf replaced by what the body emits for it"""
+        if ast[0] == 'val':
+            return leaf_fn(ast[1])
+        if ast[0] == 'seq':
+            xs = [self.items_regex(x, leaf_fn) for x in ast[1]]
+            return None if any(x is None for x in xs) else ('seq', xs)
+        inner = self.items_regex(ast[1], leaf_fn)
+        return None if inner is None else (ast[0], inner)
+
+    @staticmethod
+    def symbols_ast(sy):
+        out = []
+        for x in sy:
+            if isinstance(x, int):
+                out.append(('lit', bytes([x])))
+            elif isinstance(x, str):
+                out.append(('sym', x[1:-1]))
+            elif isinstance(x, tuple) and x and x[0] == 'ALT':
+                alts = [Emission.symbols_ast(list(a)) for a in x[1]]
+                if any(a is None for a in alts):
+                    return None
+                out.append(('alt', alts))
+            elif isinstance(x, tuple) and x and x[0] == 'RX':
+                out.append(x[1])
+            else:
+                return None
+        return ('seq', out)
 
     def transparent_closure(self, st, clos):
         """|x| x.as_str() / x.as_ref() / &**x / x: the result designates the element itself"""
@@ -236,6 +368,49 @@ class Emission:
             elif step[0] in ('keys', 'values'):
                 out.append(step[0])
         return '.'.join(out) if out else 'self'
+
+    def peel(self, s, v):
+        for _ in range(4):
+            if v[0] == 'cref':
+                v = v[1]
+            elif v[0] == 'ref' and v[1][0] == 'L':
+                try:
+                    v = self.e.deref_value(s.state, v)
+                except Exception:
+                    break
+            elif v[0] == 'mut':
+                v = v[1]
+            else:
+                break
+        return v
+
+    def closure_emission(self, s, clos, elem):
+        """what one application of a try_for_each closure to `elem` emits, as a regex AST (alternatives over its Ok paths)"""
+        if clos[0] != 'closure' or clos[1] not in self.prog.bodies:
+            return None
+        st2 = s.state.copy()
+        n0 = len(st2.events)
+        try:
+            outs = self.e._run(st2, clos[1], [('cref', clos) if str(self.prog.bodies[clos[1]]['mir']['locals'][1]).lstrip().startswith('&') else clos, elem], 2)
+        except Exception:
+            return None
+        alts = []
+        for s3, rv in outs:
+            if rv == ('PANIC',):
+                return None
+            if rv[0] == 'adt' and rv[2] == 'Err':
+                continue
+            fake = pxm.Segment(s.src, s.dst, s3, rv, s3.events[n0:], 'return')
+            sy = self.symbols(fake)
+            if sy is None:
+                return None
+            a = self.symbols_ast(sy)
+            if a is None:
+                return None
+            alts.append(a)
+        if not alts:
+            return None
+        return alts[0] if len(alts) == 1 else ('alt', alts)
 
     def star_of(self, s, itv, clos):
         """symbol sequences one application of a try_for_each closure can emit; [] when the iterated collection is a constant empty slice"""
@@ -345,6 +520,13 @@ class Emission:
                     return None
                 self.subs.append(sub)
                 out.append(('SUB', res[0], name))
+            elif re.search(r'iter::Iterator::try_for_each$|as std::iter::Iterator>::try_for_each$', name) and len(args) == 2 and self.is_composite(self.peel(s, args[0])):
+                items = self.iter_items(s.state, self.peel(s, args[0]))
+                rx = self.items_regex(items, lambda t: self.closure_emission(s, args[1], t)) if items is not None else None
+                if rx is None:
+                    self.problems.append('try_for_each over %s' % e.short(args[0], 100))
+                    return None
+                out.append(('RX', rx))
             elif re.search(r'iter::Iterator::try_for_each$|as std::iter::Iterator>::try_for_each$', name) and len(args) == 2:
                 star = self.star_of(s, args[0], args[1])
                 if star is None:
@@ -398,6 +580,19 @@ class Emission:
         return out
 
 
+def ast_syms(ast, out=None):
+    """role symbols occurring in a regex AST"""
+    out = out if out is not None else set()
+    if ast[0] == 'sym':
+        out.add('<%s>' % ast[1])
+    elif ast[0] in ('seq', 'alt'):
+        for x in ast[1]:
+            ast_syms(x, out)
+    elif ast[0] in ('star', 'opt'):
+        ast_syms(ast[1], out)
+    return out
+
+
 def is_err_ret(s):
     return s.kind == 'return' and s.ret is not None and s.ret[0] == 'adt' and s.ret[2] == 'Err'
 
@@ -419,14 +614,52 @@ def segment_nfa(em):
         return None
     node(entry)
     bad = []
+    # `for x in <composite iterator> { body }`: the body segments (head -> same head, an element was fetched) are templates; the loop as a whole
+    # emits the regular expression of the iterator's element sequence with every element replaced by what the body emits for it
+    composite_heads = {}
+    for s in em.segs:
+        if s.kind == 'loop' and s.src == s.dst and s.src[0] == 'head':
+            nx = [ev for ev in s.events if ev[0] == 'next']
+            if len(nx) == 1 and s.facts.get(('tag', ('has', nx[0][1], nx[0][2]))) == 'pos':
+                itv = em.iter_value(s.state, nx[0][1])
+                if em.is_composite(itv):
+                    composite_heads.setdefault(s.src, (nx[0][1], itv, []))[2].append(s)
+    done_heads = set()
+    for H, (it, itv, bodies) in composite_heads.items():
+        st0 = bodies[0].state
+        items = em.iter_items(st0, itv)
+
+        def leaf(t, it=it, bodies=bodies):
+            alts = []
+            for bs in bodies:
+                em.elem_subst[it] = t
+                try:
+                    sy = em.symbols(bs)
+                finally:
+                    em.elem_subst.pop(it, None)
+                a = em.symbols_ast(sy) if sy is not None else None
+                if a is None:
+                    return None
+                alts.append(a)
+            return alts[0] if len(alts) == 1 else ('alt', alts)
+        rx = em.items_regex(items, leaf) if items is not None else None
+        if rx is None:
+            bad.append('loop over %s' % em.e.short(itv, 100))
+            continue
+        em.composite_ok.add(it)
+        em.composite_rx[H] = rx
+        n.chain(node(H), [('RX', rx)], node(('post', H)))
+        done_heads.add(H)
     for s in em.segs:
         if s.kind == 'panic' or is_err_ret(s) or s.kind == 'unreachable':
             continue
+        if s.src in done_heads and s.src == s.dst:
+            continue                      # body template of a composite loop
         sy = em.symbols(s)
         if sy is None:
             bad.append(em.problems[-1] if em.problems else 'segment not understood')
             continue
-        a = node(s.src)
+        a = node(('post', s.src)) if s.src in done_heads else node(s.src)
         if s.kind == 'return':
             b = node(('return',))
         else:
@@ -464,8 +697,8 @@ class NFA:
             if isinstance(sy, tuple) and sy and sy[0] == 'ALT':
                 for alt in sy[1]:
                     self.chain(cur, list(alt), nxt)
-            elif isinstance(sy, tuple) and sy and sy[0] == 'SUB':
-                sub = sy[1]
+            elif isinstance(sy, tuple) and sy and sy[0] in ('SUB', 'RX'):
+                sub = sy[1] if sy[0] == 'SUB' else regex_nfa(sy[1])
                 m = {}
                 for q in range(sub.n):
                     m[q] = self.new()
@@ -590,6 +823,8 @@ def show(word):
             out += '(' + '|'.join(show(a) for a in s[1]) + ')*'
         elif isinstance(s, tuple) and s and s[0] == 'SUB':
             out += '{%s}' % s[2].split('::')[-1]
+        elif isinstance(s, tuple) and s and s[0] == 'RX':
+            out += '{..}'
         else:
             out += str(s)
     return out
